@@ -244,6 +244,71 @@ func ruleCharset(c *Ctx, r *R) {
 	} else {
 		r.undecided("anchor:trim", "-", "UNRESOLVED builtinStringTrimWhitespace")
 	}
+	// --- who strips with that set: trim / trimLeft / trimRight, parseInt, parseFloat and ToNumber on strings must strip
+	// exactly WhiteSpace + LineTerminator, i.e. call strings.Trim* with a constant cut-set equal to the ES5 set
+	w := runeSet("\u0009\u000B\u000C\u0020\u00A0\uFEFF" + "\u1680\u180E\u2000\u2001\u2002\u2003\u2004\u2005\u2006\u2007\u2008\u2009\u200A\u202F\u205F\u3000" + "\u000A\u000D\u2028\u2029")
+	type user struct {
+		label string
+		fn    *ssa.Function
+		trim  string // required strings function
+	}
+	var users []user
+	strFns := c.Shape().boundSSA(c, "String.prototype")
+	for name, lib := range map[string]string{"trim": "Trim", "trimLeft": "TrimLeft", "trimRight": "TrimRight"} {
+		users = append(users, user{"String.prototype." + name, strFns[name], lib})
+	}
+	if g := c.Shape().Global; g != nil {
+		for _, name := range []string{"parseInt", "parseFloat"} {
+			if p := g.Props[name]; p != nil {
+				if ch := p.objOf(); ch != nil && ch.Native != nil {
+					if f, ok := ch.Native.Call.(SFunc); ok {
+						users = append(users, user{name, c.SSAFunc(f.Fn), "Trim"})
+					}
+				}
+			}
+		}
+	}
+	users = append(users, user{"ToNumber(string)", c.SSAFunc(c.LookupFunc("", "parseNumber")), "Trim"})
+	sort.Slice(users, func(i, j int) bool { return users[i].label < users[j].label })
+	for _, u := range users {
+		if u.fn == nil {
+			r.undecided("strip:"+u.label, "-", "UNRESOLVED: "+u.label)
+			continue
+		}
+		found := ""
+		var follow func(fn *ssa.Function, depth int)
+		follow = func(fn *ssa.Function, depth int) {
+			if fn == nil || fn.Blocks == nil || depth > 1 || found == "ok" {
+				return
+			}
+			for _, b := range fn.Blocks {
+				for _, ins := range b.Instrs {
+					call, ok := ins.(*ssa.Call)
+					if !ok {
+						continue
+					}
+					callee := call.Call.StaticCallee()
+					if callee == nil {
+						continue
+					}
+					if callee.Pkg != nil && callee.Pkg.Pkg.Path() == "strings" && callee.Name() == u.trim && len(call.Call.Args) == 2 {
+						if k, ok := call.Call.Args[1].(*ssa.Const); ok && k.Value != nil && k.Value.Kind() == constant.String {
+							got := runeSet(constant.StringVal(k.Value))
+							if setDiff(got, w) == "" && setDiff(w, got) == "" {
+								found = "ok"
+							} else if found == "" {
+								found = "strips a different set"
+							}
+						}
+					} else if callee.Pkg != nil && callee.Pkg.Pkg.Path() == ottoPath && strings.HasPrefix(callee.Name(), "builtinStringTrim") {
+						follow(callee, depth+1) // trimStart / trimEnd delegate
+					}
+				}
+			}
+		}
+		follow(u.fn, 0)
+		r.check(found == "ok", "strip:"+u.label, c.Pos(u.fn.Pos()), "strips exactly WhiteSpace + LineTerminator (strings."+u.trim+" with the ES5 set)", fmt.Sprintf("%s must strip exactly the ES5 WhiteSpace and LineTerminator characters (§7.2, §7.3) with strings.%s and the constant set; found: %s. A predicate such as unicode.IsSpace also strips U+0085, which ES5 does not treat as white space, and lacks U+FEFF / U+180E", u.label, u.trim, map[string]string{"": "no such call"}[found]+found))
+	}
 }
 
 func ruleLibMust(c *Ctx, r *R) {
